@@ -265,6 +265,7 @@ func cmdCheck(args []string) int {
 	var incon []string
 	var allViol []*interp.Violation
 	kfSeen := map[string]*interp.Violation{}
+	partialRun = *only != ""
 	for _, h := range pc.Harnesses {
 		if *only != "" && h.Func != *only {
 			continue
@@ -726,8 +727,16 @@ func writeEvidence(id, tier string, seed int, results []*harnessResult, pc *Prop
 		"assumptions": assumptions, "wall_s": wall, "violations": nviol,
 	}
 	b, _ := json.MarshalIndent(ev, "", " ")
-	os.WriteFile(filepath.Join(outDir, "evidence", id+".json"), b, 0o644)
+	name := id + ".json"
+	if partialRun {
+		// --only (a development aid) decides a subset of the obligations: its
+		// evidence must not replace the evidence of a full run
+		name = id + ".partial.json"
+	}
+	os.WriteFile(filepath.Join(outDir, "evidence", name), b, 0o644)
 }
+
+var partialRun bool
 
 func solverVersion() string {
 	out, err := exec.Command("/usr/bin/z3", "--version").Output()
